@@ -195,6 +195,15 @@ def vocabulary(exchanges):
             'prefixes': prefixes}
 
 
+def policy_of(fn):
+    """The policy fixture of a gabbi file (by the corpus' naming convention)."""
+    if fn.endswith('-secure-rbac.yaml'):
+        return 'secure'
+    if fn.endswith('-policy.yaml'):
+        return 'open'
+    return 'default'
+
+
 def to_lines(per_file):
     """Trace lines (TraceAPI format) + bookkeeping."""
     lines, meta = [], {}
@@ -205,7 +214,7 @@ def to_lines(per_file):
             if 'unmodelled' in x['pre'] or 'unmodelled' in x['post']:
                 prev_post = None
                 continue
-            areq = unrender.abstract(x['method'], x['path'], x['headers'], x['body'], ENV)
+            areq = unrender.abstract(x['method'], x['path'], x['headers'], x['body'], ENV, policy_of(fn))
             x['areq'] = areq
             if areq is None:
                 req = {'op': 'opaque', 'v': 0, 'method': x['method']}
